@@ -384,6 +384,33 @@ var specs = map[int]kindSpec{
 	gtp5gnl.CMD_GET_BAR:    {"BAR", gtp5gnl.BAR_ID, 1, gtp5gnl.BAR_SEID},
 }
 
+// Classify tells which rule a logged request is about and what it does to it: create | update | remove | get ("" for
+// requests that are not about one rule).
+func Classify(r *Request) (RuleKey, string) {
+	sp, ok := specs[r.Cmd]
+	if !ok {
+		return RuleKey{}, ""
+	}
+	ida, ok := First(r.Attrs, sp.idAttr)
+	if !ok {
+		return RuleKey{}, ""
+	}
+	key := RuleKey{Kind: sp.kind, ID: idOf(ida, sp.idLen)}
+	if sa, ok := First(r.Attrs, sp.seid); ok && len(sa.Value) >= 8 {
+		key.SEID = sa.U64()
+	}
+	switch r.Cmd {
+	case gtp5gnl.CMD_ADD_PDR, gtp5gnl.CMD_ADD_FAR, gtp5gnl.CMD_ADD_QER, gtp5gnl.CMD_ADD_URR, gtp5gnl.CMD_ADD_BAR:
+		if r.Flags&syscall.NLM_F_REPLACE != 0 {
+			return key, "update"
+		}
+		return key, "create"
+	case gtp5gnl.CMD_DEL_PDR, gtp5gnl.CMD_DEL_FAR, gtp5gnl.CMD_DEL_QER, gtp5gnl.CMD_DEL_URR, gtp5gnl.CMD_DEL_BAR:
+		return key, "remove"
+	}
+	return key, "get"
+}
+
 func idOf(a Attr, n int) uint64 {
 	switch {
 	case len(a.Value) >= 8 && n == 8:
